@@ -369,6 +369,9 @@ class Unit:
             raise TranslatorError('circuit.py: `logger` must be a module-level logger')
 
     # ---- lookup / lazy translation
+    def make_tr(self, modkey, src, coqname):
+        return FnTr(self, modkey, src, coqname)
+
     def get(self, modkey, name, node=None):
         key = (modkey, name)
         if key in self.done:
@@ -384,7 +387,7 @@ class Unit:
         if src is None:
             raise TranslatorError(f'{modkey}: {name} not found (or defined twice)')
         self.in_progress.add(key)
-        fn = FnTr(self, modkey, src, ('gen_Block_' if modkey == 'block' else 'gen_') + name).translate()
+        fn = self.make_tr(modkey, src, ('gen_Block_' if modkey == 'block' else 'gen_') + name).translate()
         self.in_progress.discard(key)
         self.done[key] = fn
         self.order.append(fn)
@@ -398,6 +401,9 @@ class K:
 
 
 class FnTr:
+    FORBIDDEN = (ast.Yield, ast.YieldFrom, ast.Await, ast.Try, ast.With, ast.While, ast.Global, ast.Nonlocal,
+                 ast.Lambda, ast.NamedExpr, ast.Starred, ast.AugAssign)
+
     def __init__(self, unit, modkey, src, coqname, outer=None):
         self.u, self.modkey, self.src = unit, modkey, src
         self.impkey = 'circuit' if modkey == 'block' else modkey      # module whose imports are in scope
@@ -627,7 +633,8 @@ class FnTr:
                 for t in tgts:
                     if isinstance(t, ast.Subscript):
                         r = root(t)
-                        if r is not None and (r not in env or r in assigned) and self.self_writable:
+                        if r is not None and (r not in env or r in assigned) and self.self_writable \
+                                and not self.is_private_local(r):
                             out.add(selfname)
                 if isinstance(n, ast.Call) and isinstance(n.func, ast.Attribute) and isinstance(n.func.value, ast.Name) \
                         and n.func.value.id not in env and self.u.block_methods.get(n.func.attr) is not None \
@@ -637,6 +644,10 @@ class FnTr:
             if name in env and env[name].kind in ('local', 'ref') and env[name].alias - {'param'}:
                 out.add(selfname)
         return out
+
+    def is_private_local(self, name):
+        """a local container that provably shares nothing with the state (none in T9)"""
+        return False
 
     @staticmethod
     def terminates(stmts):
@@ -1062,6 +1073,9 @@ class FnTr:
                 codes[p] = (None, 'None')
                 continue
             v = self.expr(a, env, pre)
+            if ty.startswith('opt') and v.ty == ty:
+                codes[p] = (None, self.atom(v))         # an Optional passed on as it is
+                continue
             want = ty[3:] if ty.startswith('opt') else ty
             if v.ty != want and not (want == 'labelset' and v.ty == 'labels'):
                 fail(a, f'argument of type {v.ty} where {ty} is expected')
@@ -1260,6 +1274,11 @@ class FnTr:
             fail(node, f'loop over {v.ty}')
         return v
 
+    def check_loop_body(self, s):
+        for n in ast.walk(s):
+            if isinstance(n, (ast.Break, ast.Continue)):
+                fail(n, 'break / continue')
+
     def for_(self, s, env, kr):
         if not s.orelse and isinstance(s.target, ast.Tuple):
             return self.enum_update(s, env, kr)
@@ -1269,9 +1288,7 @@ class FnTr:
                 return r
         if s.orelse or not isinstance(s.target, ast.Name):
             fail(s, 'loop form outside grammar')
-        for n in ast.walk(s):
-            if isinstance(n, (ast.Break, ast.Continue)):
-                fail(n, 'break / continue')
+        self.check_loop_body(s)
         x = s.target.id
         if x in env:
             fail(s, f'loop variable {x} shadows a name')
@@ -1280,10 +1297,6 @@ class FnTr:
         xc = self.vname(s.target, x)
         if it.ty in PAIR_ELEM:
             xc = 'kv_' + x          # a (key, value) pair of the dict
-        names = self.carried(self.modset(s.body, env), env)
-        for n in names:
-            if env[n].kind not in ('self', 'mutlocal'):
-                fail(s, f'the loop body modifies {n}, which is not a mutable local or the writable state')
 
         def body_env():
             e = dict(env)
@@ -1295,6 +1308,14 @@ class FnTr:
                 ety = PAIR_ELEM[it.ty]
                 e[x] = Var(f'(snd {xc})', ety, 'local', {'blocks.content'} if ety == 'block' else (), f'(fst {xc})')
             return e
+        return self.fold_loop(s, env, kr, pre, it, xc, body_env)
+
+    def fold_loop(self, s, env, kr, pre, it, xc, body_env):
+        """foldM of the loop body over the list `it`, carrying the variables the body assigns"""
+        names = self.carried(self.modset(s.body, env), env)
+        for n in names:
+            if env[n].kind not in ('self', 'mutlocal'):
+                fail(s, f'the loop body modifies {n}, which is not a mutable local or the writable state')
 
         def kemit(e):
             for n in names:
@@ -1304,7 +1325,7 @@ class FnTr:
         # dry run: learn what the body writes, then make sure nothing it reads or iterates is affected
         saved = (set(self.fn.effects), self.tmp, list(self.returns), list(self.pre_defs))
         self.fn.effects = set()
-        self.stmts(s.body, body_env(), K(kemit, True, False))
+        self.loop_body(s.body, body_env(), K(kemit, True, False))
         body_effects = set(self.fn.effects)
         self.fn.effects, self.tmp, self.returns, self.pre_defs = saved[0] | body_effects, saved[1], saved[2], saved[3]
         if it.alias & body_effects:
@@ -1312,12 +1333,15 @@ class FnTr:
         for v in env.values():
             if v.alias & body_effects:
                 v.stale = True
-        body = self.stmts(s.body, body_env(), K(kemit, True, False))
+        body = self.loop_body(s.body, body_env(), K(kemit, True, False))
         init = tuple_of([env[n].code for n in names])
         binder = pat_of([env[n].code for n in names], binder=True)
         pat = pat_of([env[n].code for n in names])
         loop = '\n'.join([f'foldM (fun {binder} {xc} =>', ind(body, 4) + ')', f'  {self.atom(it)} {init}'])
         return '\n'.join(self.emit_pre(pre) + [f'do {pat} <-', ind(loop) + ';', kr.emit(env)])
+
+    def loop_body(self, body, env, k):
+        return self.stmts(body, env, k)
 
     # ---- recognised in-place idioms
     def list_place(self, node, env):
@@ -1460,7 +1484,7 @@ class FnTr:
                 fail(n, 'a closure may capture only self')
             if isinstance(n, (ast.Nonlocal, ast.Global, ast.Lambda)) or (isinstance(n, ast.FunctionDef) and n is not s):
                 fail(n, 'closure body outside grammar')
-        sub = FnTr(self.u, self.modkey, s, f'{self.fn.coqname}_{s.name.lstrip("_")}', outer=self)
+        sub = type(self)(self.u, self.modkey, s, f'{self.fn.coqname}_{s.name.lstrip("_")}', outer=self)
         fn = sub.translate()
         self.pre_defs = [d for d in self.pre_defs if d.coqname != fn.coqname] + [fn]
         env2 = dict(env)
@@ -1731,8 +1755,7 @@ class FnTr:
         if not body:
             fail(f, 'empty body')
         for n in ast.walk(f):
-            if isinstance(n, (ast.Yield, ast.YieldFrom, ast.Await, ast.Try, ast.With, ast.While, ast.Global, ast.Nonlocal,
-                              ast.Lambda, ast.NamedExpr, ast.Starred, ast.AugAssign)):
+            if isinstance(n, self.FORBIDDEN):
                 fail(n, 'construct outside grammar')
         # **kwargs may only be forwarded
         if self.kwarg is not None:
